@@ -61,12 +61,37 @@ Section MruBridge.
   Ltac callee L := let P := fresh "P" in pose proof L as P; unfold req in P; revert P.
   Ltac finish := intros; clean; subst; try contradiction; try congruence; auto; try arith.
 
+  (* list.back() is *std::prev(list.end()) (and `auto it = end(); --it; *it`): whichever of the two spellings the source
+     uses, one first case-splits on the FACT l_back l = Ok b / UB and rewrites the iterator spelling, if present, with it *)
+  Lemma before_end_last l : l <> [] -> before End l = Some (last l 0).
+  Proof.
+    induction l as [|x r IH]; [congruence|]. intros _. destruct r as [|y r']; [reflexivity|].
+    change (before End (x :: y :: r')) with (before End (y :: r')). rewrite IH by congruence. reflexivity.
+  Qed.
+  Lemma mem_nat_last l : l <> [] -> mem_nat (last l 0) l = true.
+  Proof.
+    induction l as [|x r IH]; [congruence|]. intros _. destruct r as [|y r'].
+    - simpl. rewrite Nat.eqb_refl. reflexivity.
+    - change (last (x :: y :: r') 0) with (last (y :: r') 0). 
+      change (mem_nat ?n (x :: ?t)) with (Nat.eqb n x || mem_nat n t)%bool. rewrite IH by congruence. apply Bool.orb_true_r.
+  Qed.
+  Lemma l_back_is_deref_prev_end l b : l_back l = Ok b -> l_prev l End = Ok (It b) /\ l_deref l (It b) = Ok b.
+  Proof.
+    intros E. assert (N : l <> []) by (destruct l; [discriminate|congruence]).
+    assert (Eb : b = last l 0) by (destruct l; [discriminate|injection E; intros E'; symmetry; exact E']). subst b.
+    unfold l_prev, l_deref. rewrite before_end_last, mem_nat_last by exact N.
+    destruct l; [congruence|]. split; reflexivity.
+  Qed.
+  Lemma l_back_UB_prev_end l w : l_back l = UB w -> exists w', l_prev l End = UB w'.
+  Proof. destruct l; [|discriminate]. intros _. eexists. reflexivity. Qed.
+
   Lemma g_do_prune_ok (s : lrul K V) : req (g_do_prune s) (ll_do_prune s).
   Proof.
-    unfold g_do_prune, ll_do_prune, bind.
-    destruct (l_back (ll_list s)) as [b|] eqn:B.
-    - callee (g_do_erase_ok s b). crush; finish.
-    - crush; finish.
+    unfold g_do_prune, ll_do_prune.
+    destruct (l_back (ll_list s)) as [b|w] eqn:B.
+    - destruct (l_back_is_deref_prev_end _ _ B) as [B1 B2]. rewrite ?B1; cbn [bind]; rewrite ?B2; cbn [bind].
+      callee (g_do_erase_ok s b). unfold bind. crush; finish.
+    - destruct (l_back_UB_prev_end _ _ B) as [w' B1]. rewrite ?B1; cbn [bind]. unfold bind. crush; finish.
   Qed.
 
   Lemma index_erase_keeps_absent (ix ix' : list (K * nat)) it k :
@@ -161,7 +186,7 @@ Section MruBridge.
   Lemma g_do_update_ok (s : lrul K V) k idx v :
     assoc k (ll_index s) = Some idx -> req (g_do_update s (Some k) v) (ll_do_update true s idx v).
   Proof.
-    intros A. unfold g_do_update, ll_do_update, mit_second. rewrite ?A. cbn [bind].
+    intros A. unfold g_do_update, ll_do_update, mit_second, mit_deref. rewrite ?A. cbn [bind].
     destruct (nth_error (ll_elems s) idx) as [e0|] eqn:N; [|vec_none N].
     assert (L : idx < List.length (ll_elems s)) by (apply nth_error_Some; congruence).
     vec N L.
@@ -170,7 +195,7 @@ Section MruBridge.
 
   (* the index lookup: split on the FACT assoc k ix = Some idx / None; then `it == end()`, `it != end()`,
      `end() != it`, an early return on the miss ... all reduce by computation *)
-  Ltac lookup A := unfold mit_find, mit_second; cbn [mit_eqb negb bind]; rewrite ?A; cbn [mit_eqb negb bind].
+  Ltac lookup A := unfold mit_find, mit_second, mit_deref; cbn [mit_eqb negb bind]; rewrite ?A; cbn [mit_eqb negb bind].
 
   Lemma g_do_insert_update_ok (s : lrul K V) k v a : req (g_do_insert_update s k v a) (ll_ins true s k v a).
   Proof.
